@@ -10,7 +10,9 @@ import (
 	"bufio"
 	"fmt"
 	"os"
+	"strconv"
 	"strings"
+	"time"
 )
 
 type runner func(caseText string) string
@@ -54,10 +56,32 @@ func main() {
 		if sp >= 0 {
 			id, c = line[:sp], line[sp+1:]
 		}
-		obs := safeRun(r, c)
+		// a case that does not come back (an endless loop in the code under test) is reported as such and the process
+		// ends, so that the runner restarts it with the next case instead of waiting for the whole batch's timeout
+		done := make(chan string, 1)
+		go func() { done <- safeRun(r, c) }()
+		var obs string
+		select {
+		case obs = <-done:
+		case <-time.After(caseLimit()):
+			fmt.Fprintf(out, "%s\tHANG the case did not return within %v\n", id, caseLimit())
+			out.Flush()
+			os.Exit(3)
+		}
 		fmt.Fprintf(out, "%s\t%s\n", id, obs)
 		out.Flush()
 	}
+}
+
+// caseLimit is the wall-clock limit of one case ($VERIF_CASE_LIMIT seconds; the end-to-end runners have their own
+// shorter limits inside).
+func caseLimit() time.Duration {
+	if s := os.Getenv("VERIF_CASE_LIMIT"); s != "" {
+		if n, err := strconv.Atoi(s); err == nil && n > 0 {
+			return time.Duration(n) * time.Second
+		}
+	}
+	return 240 * time.Second
 }
 
 // ---- small helpers shared by the per-property files
